@@ -98,24 +98,19 @@ func validateUnconnectedProcessors(flow *FlowDirection) error {
 }
 
 // detectCircularConnections detects circular connections in the flow graph.
+// Every node of the direction is checked, not only the nodes reachable from the root: after an early response the
+// walk of the response direction resumes at the node that carries the key of the answering processor, which need not
+// be reachable from the root (and a response direction may have no root at all), so a cycle anywhere in the
+// direction would make the walk recurse without end.
 func detectCircularConnections(flowDir *FlowDirection) error {
-	if flowDir.GetFlowType().IsResponseType() && !flowDir.HasValidRoot() {
-		return nil
-	}
-
-	rootEdges := flowDir.root.node.edges
-	for _, connection := range rootEdges {
-		if connection.node == nil {
-			continue
-		}
+	for proc, node := range flowDir.nodes {
 		log.Trace().
-			Str("flowGraphName", connection.node.flowGraphName).
-			Msgf("Validating no circular connections for processor %s", connection.node.processorKey)
+			Str("flowGraphName", node.flowGraphName).
+			Msgf("Validating no circular connections for processor %s", proc)
 		visitedByCondition := make(
 			map[string]map[string]bool,
 		) // key - condition, value - processorKey
-		proc := connection.node.processorKey
-		if !dfsDetectCycles(connection.node, visitedByCondition, proc, connection.condition) {
+		if !dfsDetectCycles(node, visitedByCondition, proc, "") {
 			return fmt.Errorf("circular connection detected - processor '%s'", proc)
 		}
 		log.Trace().Msgf("No cycle detected for processor %s", proc)
